@@ -41,6 +41,14 @@ prop("C12", "Transaction-data parsers are total and inverse to the builders", ["
      extra_assume=["A5 strings.Split(s,'@') and encoding/hex contracts; Split o Join = id on the wire format (prelude axiom: neither a name without '@' nor a hex string contains '@')"])
 prop("C13", "Deterministic, input not modified", BF, ["frame", "alias"],
      "Frame proof: every heap component reachable from the input (all fields of ContractCallInput/VMInput, argument backing arrays) and every object that existed before the call is unchanged outside the declared modifies clause; byte slices are immutable values in the model and every store into one is rejected by the generator; appends onto shared prefixes must reallocate (cap == len object invariant). Determinism follows from the absence of goroutines, maps-range-dependent outputs and hidden state in the checked fragment plus deterministic dependencies (A10).")
+prop("C14", "Token-data serialisation is lossless, canonical and format-stable",
+     ["contracts:^data\\.", "contracts:^data_esdt\\."], ["safety", "allocbound", "frame", "alias"],
+     "Proved for all values: the amount codec (Size, MarshalTo into a caller-supplied buffer of any prior content, Unmarshal) against the documented sign-and-magnitude format, with the round-trip lemma Unmarshal(MarshalTo(a)) == a and the short-buffer lemma; for the three generated message types, Size equals the number of bytes written, every write stays inside the buffer (functional size specification over varint lengths and repeated fields) and Marshal returns exactly Size bytes; the three decoders and skipEsdt never panic on any input up to 2^30 bytes (no index or slice out of range, no negative or unbounded allocation) and write only the receiver. Bounded, not proved: message-level round trip, determinism and byte equality with an independent reference encoder (tools/bounded_codec.sh).",
+     extra_assume=["A4 math/big contracts: Bytes is the minimal big-endian magnitude (no leading zero byte), SetBytes its inverse; math/bits.Len64 is the bit length",
+                   "messages are smaller than 2^30 bytes (sizes are then computed without wrap-around); MarshalTo/MarshalToSizedBuffer get a buffer of at least Size bytes and a non-nil receiver (API precondition; Marshal satisfies it itself)",
+                   "a message reused for decoding owns its byte buffers (cap == 0 or allocated during the execution): gogo's append(m.F[:0], ...) overwrites them in place"],
+     bounded=[{"name": "message round trip / reference encoder / decode robustness", "cmd": "tools/bounded_codec.sh", "bound": "amounts -70000..70000, +-2^k(+-1) k<=520, nil; 20000 random structured messages per run (seeded); all byte strings of length <= 2; 20000 random strings <= 64 bytes and single-bit mutations of valid encodings"}])
+P["C14"]["assumptions"] = [a for a in P["C14"]["assumptions"] if not a.startswith(("A7", "A8", "A12", "A16", "read errors"))]
 prop("C15", "Token state well-formed", BF, [],
      "WFvalues (every stored token entry decodes to a record with a non-negative value) is preserved by every entry point that writes token entries; zero-balance deletion is part of the exact-delta clauses. Partial: key-layout and no-duplicate-role clauses are not yet stated.")
 prop("C16", "Priced by its own schedule entry", BF, [],
